@@ -76,6 +76,7 @@ type ReqRecord struct {
 	TLS     bool
 	Method  string
 	Path    string // escaped path as received
+	Sym     string // path with non-reproducible elements replaced by symbolic names
 	RawQ    string
 	Header  http.Header
 	Body    []byte
@@ -90,10 +91,25 @@ type ReqRecord struct {
 	Flushes  []int
 	RespBody []byte
 	RespHdr  http.Header
+	// OrigBody is what the handler produced, before any body fault.
+	OrigBody []byte
+}
+
+// Altered reports whether the body delivered (or cut short) differs from
+// what the handler produced.
+func (q *ReqRecord) Altered() bool {
+	if !q.Served {
+		return false
+	}
+	switch q.Fault.Kind {
+	case FShortCL, FResetMid:
+		return true
+	}
+	return !bytes.Equal(q.RespBody, q.OrigBody)
 }
 
 func (q *ReqRecord) String() string {
-	return fmt.Sprintf("%s %s %s", q.Server, q.Method, q.Path)
+	return fmt.Sprintf("%s %s %s", q.Server, q.Method, q.Sym)
 }
 
 // Server is a simulated HTTP endpoint.
@@ -119,6 +135,10 @@ type Net struct {
 	// Policy decides, on the scheduler goroutine and at release time, how a
 	// pending request is answered. nil = always normal.
 	Policy func(q *ReqRecord) FaultSpec
+	// PathName maps a request path to its symbolic form for logs and
+	// canonical ordering (CIDs are not reproducible across executions when
+	// signatures are randomised).
+	PathName func(path string) string
 }
 
 func NewNet(r *Run) *Net {
@@ -238,6 +258,10 @@ func (n *Net) serve(conn net.Conn, srv *Server, isTLS bool) {
 		Method: req.Method, Path: req.URL.EscapedPath(), RawQ: req.URL.RawQuery,
 		Header: req.Header.Clone(), Body: body, Step: n.r.Step(),
 	}
+	q.Sym = q.Path
+	if n.PathName != nil {
+		q.Sym = n.PathName(q.Path)
+	}
 	srv.nreq++
 	n.reqs = append(n.reqs, q)
 	n.mu.Unlock()
@@ -290,6 +314,7 @@ func (n *Net) serve(conn net.Conn, srv *Server, isTLS bool) {
 	q.Status = rw.code
 	q.Flushes = rw.flushes
 	out := rw.buf.Bytes()
+	q.OrigBody = out
 	q.RespHdr = rw.hdr
 	useCL := true
 	chunk := 0
